@@ -312,6 +312,20 @@ pub fn expected_ids(top: &[ANode]) -> Vec<(String, Vec<usize>)> {
     out
 }
 
+/// The xml:id values of an actual forest that are not in normal form, normalised.
+pub fn unnormalised_ids(nodes: &[ANode], out: &mut Vec<String>) {
+    for n in nodes {
+        if let ANode::Elem(e) = n {
+            for a in &e.attrs {
+                if a.0 == XML_NS && a.1 == "id" && trim_collapse(&a.2) != a.2 {
+                    out.push(trim_collapse(&a.2));
+                }
+            }
+            unnormalised_ids(&e.kids, out);
+        }
+    }
+}
+
 pub fn all_values_xml_chars(t: &GTree) -> bool {
     let ok = |s: &str| s.chars().all(is_xml_char);
     let here = match &t.v {
@@ -587,34 +601,4 @@ pub fn expected_spans(vocab: &Vocab, seen: &Seen, r: &Rendered, out: &mut BTreeS
             }
         }
     }
-}
-
-pub fn json_escape(s: &str) -> String {
-    let mut o = String::new();
-    for c in s.chars() {
-        match c {
-            '"' => o.push_str("\\\""),
-            '\\' => o.push_str("\\\\"),
-            '\n' => o.push_str("\\n"),
-            '\r' => o.push_str("\\r"),
-            '\t' => o.push_str("\\t"),
-            c if (c as u32) < 0x20 => o.push_str(&format!("\\u{:04x}", c as u32)),
-            c => o.push(c),
-        }
-    }
-    o
-}
-
-pub fn f_line(prop: &str, sig: &str, what: &str, entry: &str, input: &str) -> String {
-    let shown: String = input.chars().take(200).collect();
-    format!(
-        "F\t{}\t{{\"signature\": \"{}:{}\", \"what\": \"{}\", \"replay\": {{\"suite\": \"build\", \"entry\": \"{}\", \"input\": \"{}\", \"text\": \"{}\"}}}}",
-        prop,
-        prop,
-        json_escape(sig),
-        json_escape(what),
-        entry,
-        enc(input),
-        json_escape(&shown)
-    )
 }
